@@ -267,3 +267,30 @@ func (c *Ctx) Finish(verifDir string, seed int) int {
 	}
 	return 0
 }
+
+// include runs another property's check function in a sub-context and adopts the obligations of the rules named in
+// `as` (source rule id -> rule id of this property, which must be declared). Used where a property's behaviour rests on a
+// mechanism another property already decides (e.g. a valid file needs well-formed meta events): the same rule instances
+// are obligations of both.
+func (c *Ctx) include(fn propFn, as map[string]string) {
+	sub := NewCtx(c.Prop, c.Tier, c.P)
+	func() {
+		defer func() {
+			if r := recover(); r != nil {
+				for _, to := range as {
+					c.Unk(to, "included rules (checker panic)", "-", fmt.Sprint(r))
+					break
+				}
+			}
+		}()
+		fn(sub)
+	}()
+	for _, o := range sub.Obls {
+		if to, ok := as[o.Rule]; ok {
+			c.add(to, o.Key, o.Pos, o.Status, o.Detail)
+		}
+	}
+	for k := range sub.Analysed {
+		c.Analysed[k] = true
+	}
+}
